@@ -1,5 +1,7 @@
 import Holpy.C10.Model
 import Holpy.C10.Proofs
+import Holpy.C10.ProofsNat
+import Holpy.C10.ProofsNF
 /-
 C10 — property theorems (statements only here; helper lemmas in Proofs.lean).
 -/
@@ -109,5 +111,49 @@ theorem disjNorm_sound {α : Type} {cmp : α → α → Ordering} (h : TotalOrde
 
 example : evalOr (fun n : Nat => n == 3)
     (disjNorm (fun a b : Nat => compare a b) (.node (.leaf 3) (.leaf 1))) = true := by decide
+
+/-! ### the nat polynomial normaliser (`data/nat.py` `norm_full`) -/
+
+/-- The normal form has the same value in ℕ as the expression, for every valuation of the atoms
+(whatever rank the harness gives the constant `one`). -/
+theorem norm_sound (one : Nat) (ρ : Nat → Nat) (t : NExp) : eval ρ (norm one t) = eval ρ t :=
+  norm_sound' one ρ t
+
+/- (x + y) * (x + Suc y)  ↦  x + x*x + x*y*2 + y + y*y   (atoms x = 0, y = 1, `one` ranked 2) -/
+example : norm 2 (.mul (.add (.atom 0 1) (.atom 1 1)) (.add (.atom 0 1) (.suc (.atom 1 1))))
+    = .add (.add (.add (.add (.atom 0 1) (.atom 1 1)) (.mul (.atom 0 1) (.atom 0 1)))
+        (.mul (.mul (.atom 0 1) (.atom 1 1)) (.num 2))) (.mul (.atom 1 1) (.atom 1 1)) := by
+  rfl
+
+/-- Normalising a normal form changes nothing: every term of the shape `isNF` (0, or a left-nested
+sum of monomials with strictly increasing bodies, each a numeral >= 1, a sorted product of atoms, or
+such a product times a coefficient >= 2) is a fixed point of `norm_full`.
+PARTIAL: the other half, `isNF (norm t)` for every `t`, is not proved; the harness checks it on
+the implementation's output for every generated expression (driver op `isnf`). -/
+theorem norm_idem_partial (one : Nat) (t : NExp) (h : isNF one t = true) : norm one t = t :=
+  norm_nf h
+
+/- x + x*x + x*y*2 is a normal form (atoms x = 0, y = 1, `one` ranked 2) -/
+example : isNF 2 (.add (.add (.atom 0 1) (.mul (.atom 0 1) (.atom 0 1)))
+    (.mul (.mul (.atom 0 1) (.atom 1 1)) (.num 2))) = true := by decide
+
+/-- Invariance of the normal form under the generators that need no invariant of the normaliser:
+`Suc x = x + 1`, `x + 0 = x`, `x * 0 = 0`.
+PARTIAL: associativity, commutativity and distributivity (and `0 + x`, `x * 1`, which re-insert the
+monomials of an already normalised argument) are not proved in Lean -- `norm_canonical` would need
+`isNF (norm t)` and the algebra of sorted merging; the property oracle checks them on the
+implementation on rearranged pairs (every run), and `norm_sound` shows both sides always have the
+value of the input. -/
+theorem norm_canonical_partial (one : Nat) (a : NExp) :
+    norm one (.suc a) = norm one (.add a (.num 1)) ∧
+    norm one (.add a (.num 0)) = norm one a ∧
+    norm one (.mul a (.num 0)) = norm one (.num 0) := by
+  refine ⟨rfl, ?_, ?_⟩
+  · show addP one (norm one a) (.num 0) = norm one a
+    simp only [addP]; exact insM_zero one _
+  · show mulP one (norm one a) (.num 0) = .num 0
+    simp only [mulP]; exact polyMono_zero one _
+
+example : norm 2 (.mul (.add (.atom 0 1) (.atom 1 1)) (.num 0)) = .num 0 := by rfl
 
 end Holpy.C10
